@@ -3,10 +3,12 @@ package props
 import (
 	"errors"
 	"fmt"
+	"strings"
 	"sync"
 	"time"
 
 	"ergo.services/ergo/gen"
+	"ergo.services/ergo/net/edf"
 
 	"verifsim/simkit"
 )
@@ -14,14 +16,16 @@ import (
 // C18 Events: every subscriber sees every publication once, in order.
 
 type C18Op struct {
-	Kind string `json:"kind"` // pub | badpub | sub | unsub | unregister | die
-	N    int    `json:"n"`    // pub: how many publications in a row
+	Kind string `json:"kind"`          // pub | badpub | sub | unsub | unregister | die
+	N    int    `json:"n"`             // pub: how many publications in a row
+	Big  bool   `json:"big,omitempty"` // pub: the payload exceeds the message size limit of node b
 }
 
 type C18Actor struct {
 	Role   string  `json:"role"` // producer | publisher (holds the token) | intruder (wrong token) | consumer
 	Remote bool    `json:"remote"`
-	Link   bool    `json:"link"` // consumer: subscribe by link instead of monitor
+	Third  bool    `json:"third,omitempty"` // remote consumer on the third node c instead of b
+	Link   bool    `json:"link"`            // consumer: subscribe by link instead of monitor
 	Ops    []C18Op `json:"ops"`
 }
 
@@ -29,6 +33,9 @@ type C18Case struct {
 	Buffer int        `json:"buffer"`
 	Notify bool       `json:"notify"`
 	Actors []C18Actor `json:"actors"` // actor 0 is the producer
+	// BLimit: node b accepts messages up to this size only (0 = no limit): publications marked Big are
+	// refused for b at the sender, everybody else still gets them
+	BLimit int `json:"b_limit,omitempty"`
 }
 
 type c18 struct{}
@@ -102,8 +109,23 @@ func (c18) Generate(r *simkit.Rand, tier string) any {
 		}
 	}
 	remote := r.Chance(0.35)
+	three := remote && r.Bool()
+	if three && r.Chance(0.6) {
+		c.BLimit = 400
+		// no buffer: the answer to a subscription would carry the buffered oversized publications
+		// and be refused for node b as a whole (the subscriber times out), which the oracle does not model
+		c.Buffer = 0
+		for ai := range c.Actors {
+			for oi := range c.Actors[ai].Ops {
+				if c.Actors[ai].Ops[oi].Kind == "pub" && r.Chance(0.4) {
+					c.Actors[ai].Ops[oi].Big = true
+				}
+			}
+		}
+	}
 	for i, n := 0, r.Range(1, 4); i < n; i++ {
 		a := C18Actor{Role: "consumer", Link: r.Bool(), Remote: remote && r.Bool()}
+		a.Third = a.Remote && three && r.Bool()
 		a.Ops = append(a.Ops, C18Op{Kind: "sub"})
 		for j, m := 0, r.Range(0, 2); j < m; j++ {
 			a.Ops = append(a.Ops, C18Op{Kind: "unsub"}, C18Op{Kind: "sub"})
@@ -136,7 +158,7 @@ func (c18) Shrink(cc any) []any {
 	for i := range c.Actors {
 		if c.Actors[i].Remote {
 			n := cloneJSON(c)
-			n.Actors[i].Remote = false
+			n.Actors[i].Remote, n.Actors[i].Third = false, false
 			out = append(out, n)
 		}
 	}
@@ -150,6 +172,7 @@ func (c18) Sched(r *simkit.Rand, c any) simkit.SchedSpec {
 }
 
 type c18Pub struct {
+	big      bool
 	num      int
 	by       int // index of the publishing actor
 	inv, ret int
@@ -165,6 +188,28 @@ type c18Sub struct {
 	unsubbed bool
 }
 
+// c18Msg is the payload of a publication that is made too large for node b.
+type c18Msg struct {
+	N   int
+	Pad string
+}
+
+func init() {
+	if err := edf.RegisterTypeOf(c18Msg{}); err != nil && err != gen.ErrTaken {
+		panic(err)
+	}
+}
+
+func c18Num(m any) (int, bool) {
+	switch v := m.(type) {
+	case int:
+		return v, true
+	case c18Msg:
+		return v.N, true
+	}
+	return 0, false
+}
+
 type c18Recv struct {
 	num  int
 	step int
@@ -178,12 +223,25 @@ func (c18) Run(e *simkit.Env, cc any) {
 			needRemote = true
 		}
 	}
-	var a, b gen.Node
+	needThird := false
+	for _, a := range c.Actors {
+		if a.Third {
+			needThird = true
+		}
+	}
+	var a, b, cn gen.Node
 	if needRemote {
 		sn := simkit.NewSimNet(e)
 		sn.Segment = 1
 		a = simkit.StartNetNode(e, sn, simkit.NetNodeOptions{Name: "a@h1", Cookie: "k"})
-		b = simkit.StartNetNode(e, sn, simkit.NetNodeOptions{Name: "b@h2", Cookie: "k"})
+		b = simkit.StartNetNode(e, sn, simkit.NetNodeOptions{Name: "b@h2", Cookie: "k", MaxMessageSize: c.BLimit})
+		if needThird {
+			cn = simkit.StartNetNode(e, sn, simkit.NetNodeOptions{Name: "c@h3", Cookie: "k"})
+			if cn == nil {
+				return
+			}
+			e.Probe("subscribers-on-two-remote-nodes")
+		}
 		e.Probe("remote-subscriber")
 	} else {
 		a = simkit.StartLocalNode(e, "a@h1", nil)
@@ -195,6 +253,9 @@ func (c18) Run(e *simkit.Env, cc any) {
 		simkit.StopNode(e, a, false, 0)
 		if b != nil {
 			simkit.StopNode(e, b, false, 0)
+		}
+		if cn != nil {
+			simkit.StopNode(e, cn, false, 0)
 		}
 	}()
 	ev := gen.Event{Name: "ev", Node: "a@h1"}
@@ -214,16 +275,22 @@ func (c18) Run(e *simkit.Env, cc any) {
 		alive bool
 	}
 	cons := map[int]*consumerState{}
-	publish := func(by int, p *Probe, tok gen.Ref, count int) {
+	publish := func(by int, p *Probe, tok gen.Ref, count int, big bool) {
 		for i := 0; i < count; i++ {
 			mu.Lock()
 			nextNum++
 			num := nextNum
 			mu.Unlock()
 			inv := e.Step()
-			err := p.SendEvent("ev", tok, num)
+			var err error
+			if big {
+				err = p.SendEvent("ev", tok, c18Msg{N: num, Pad: strings.Repeat("x", 3*c.BLimit)})
+				e.Probe("publication-too-large-for-one-node")
+			} else {
+				err = p.SendEvent("ev", tok, num)
+			}
 			mu.Lock()
-			pubs = append(pubs, c18Pub{num: num, by: by, inv: inv, ret: e.Step(), err: err})
+			pubs = append(pubs, c18Pub{num: num, by: by, inv: inv, ret: e.Step(), err: err, big: big})
 			mu.Unlock()
 			e.Logf("publish %d -> %v", num, err)
 		}
@@ -252,7 +319,7 @@ func (c18) Run(e *simkit.Env, cc any) {
 						for _, op := range ac.Ops {
 							switch op.Kind {
 							case "pub":
-								publish(ai, p, token, op.N)
+								publish(ai, p, token, op.N, op.Big && c.BLimit > 0)
 							case "pause":
 								e.Sleep(50 * time.Millisecond)
 							case "unregister":
@@ -300,7 +367,7 @@ func (c18) Run(e *simkit.Env, cc any) {
 				defer close(dones[ai])
 				for _, op := range ac.Ops {
 					if ac.Role == "publisher" {
-						publish(ai, p, token, op.N)
+						publish(ai, p, token, op.N, op.Big && c.BLimit > 0)
 						continue
 					}
 					bad := token
@@ -386,7 +453,7 @@ func (c18) Run(e *simkit.Env, cc any) {
 							}
 							s.ret = e.Step()
 							for _, me := range last {
-								if n, ok := me.Message.(int); ok {
+								if n, ok := c18Num(me.Message); ok {
 									s.buf = append(s.buf, n)
 								}
 							}
@@ -431,7 +498,7 @@ func (c18) Run(e *simkit.Env, cc any) {
 				return nil
 			}
 			h.Event = func(p *Probe, me gen.MessageEvent) error {
-				n, _ := me.Message.(int)
+				n, _ := c18Num(me.Message)
 				mu.Lock()
 				st.recv = append(st.recv, c18Recv{num: n, step: e.Step()})
 				mu.Unlock()
@@ -442,6 +509,9 @@ func (c18) Run(e *simkit.Env, cc any) {
 		node := a
 		if ac.Remote {
 			node = b
+			if ac.Third {
+				node = cn
+			}
 		}
 		// consumers are spawned by a parent process (exit signals stamped as coming from the node core would not be trapped by a top-level actor)
 		pid, err := spawnUnder(e, node, h)
@@ -461,12 +531,21 @@ func (c18) Run(e *simkit.Env, cc any) {
 			e.Fail("C18/unexpected-failure", "nodes could not connect: %v", err)
 			return
 		}
+		if cn != nil {
+			if _, err := cn.Network().GetNode("a@h1"); err != nil {
+				e.Fail("C18/unexpected-failure", "nodes could not connect: %v", err)
+				return
+			}
+		}
 	}
 	for ai := range c.Actors {
 		ai := ai
 		node := a
 		if c.Actors[ai].Remote {
 			node = b
+			if c.Actors[ai].Third {
+				node = cn
+			}
 		}
 		e.Go(fmt.Sprintf("kick%d", ai), func() {
 			node.Send(pids[ai], "go")
@@ -499,6 +578,10 @@ func (c18) Run(e *simkit.Env, cc any) {
 		}
 	}
 	eventEnded := endStart >= 0
+	// a publication beyond node b's size limit is refused for b at the sender: subscribers there may miss it
+	excused := func(ai int, p c18Pub) bool {
+		return p.big && c.Actors[ai].Remote && !c.Actors[ai].Third
+	}
 	for ai, st := range cons {
 		// stream: increasing, no duplicates
 		seen := map[int]int{}
@@ -598,7 +681,7 @@ func (c18) Run(e *simkit.Env, cc any) {
 				}
 				for _, p := range okPubs {
 					f, ok := first[p.by]
-					if ok && p.num > f && p.ret < endInv && !sawNum[p.num] && !gotAtAll[p.num] {
+					if ok && p.num > f && p.ret < endInv && !sawNum[p.num] && !gotAtAll[p.num] && !excused(ai, p) {
 						e.Fail("C18/gap", "consumer %d (%s, remote=%v): subscription (steps %d-%d, buffer %v) saw publication %d of actor %d but neither its buffer nor its stream has the later publication %d (steps %d-%d) made before the subscription ended (%d)",
 							ai, map[bool]string{true: "link", false: "monitor"}[st.link], c.Actors[ai].Remote, s.inv, s.ret, s.buf, f, p.by, p.num, p.inv, p.ret, endInv)
 						return
@@ -623,6 +706,10 @@ func (c18) Run(e *simkit.Env, cc any) {
 					if inBuf[p.num] {
 						e.Fail("C18/buffer-from-the-future", "consumer %d: publication %d was made after the subscription returned but is in its buffer", ai, p.num)
 						return
+					}
+					if nrecv == 0 && excused(ai, p) {
+						e.Probe("oversized-publication-skipped-for-limited-node")
+						continue
 					}
 					if nrecv != 1 {
 						e.Fail("C18/missed-publication", "consumer %d (%s, remote=%v): publication %d (steps %d-%d) was made while the subscription (steps %d-%d, ended at %d) was in place but was received %d times",
@@ -659,17 +746,16 @@ func (c18) Run(e *simkit.Env, cc any) {
 			if active {
 				want = 1
 			}
-			// a subscription that overlapped the end may or may not be notified
+			// a subscription that succeeded and was not removed is notified exactly once, also when
+			// the request raced with the end of the event (it either fails or is notified); only a
+			// removal that overlapped the end leaves both outcomes open
 			overl := false
 			for _, s := range st.subs {
-				if s.err == nil && s.ret >= endStart && (endDone < 0 || s.inv <= endDone) {
-					overl = true
-				}
 				if s.unsubbed && s.unsubRet >= endStart && (endDone < 0 || s.unsubInv <= endDone) {
 					overl = true
 				}
 			}
-			if !overl {
+			if active || !overl {
 				if len(st.ends) != want {
 					e.Fail("C18/end-notification", "consumer %d: subscribed=%v when the event ended (%s) and got %d exit/down notifications %v", ai, active, endReason, len(st.ends), st.ends)
 					return
